@@ -105,7 +105,7 @@ PROPS = {
         level_note="Virtual time: deadlines fire only when the clock actor is scheduled. The exact-count clause assumes TX services every sendable frame before the next deadline (true by construction in part 1, not assumed in part 2, which only checks the upper bound). async-io timers of the std build are not exercised.",
         rule="case = one execution (part 2: configuration + schedule, distinct by event-trace and schedule hash; non-trivial = interleaving on a slot or expiry/abandon/loss happened) or one enumerated tuple (part 1, all distinct); aux_distinct counts distinct slot-state vectors and distinct (step, actor) sweep points",
         assumptions=["virtual clock (embassy-time driver implemented by the harness)", "sequentially consistent interleavings"],
-        min_distinct=dict(quick=6000, thorough=200000),
+        min_distinct=dict(quick=6000, thorough=150000),
         required_counters=["enumeration_complete", "timed_out", "completed_with_response", "response_received_before_deadline_examined", "forever_still_retrying",
                            "cfg.systematic_single_preemption_sweep", "timeouts", "retransmissions", "wire_losses", "requests_abandoned", "forever_policy_observed_8_periods",
                            "transition.swap:Sending->Abandoned", "transition.swap:RxBusy->Abandoned", "transition.swap:Sent->Sendable", "site.PollTimerFired"],
@@ -114,7 +114,7 @@ PROPS = {
         runs=[
             native("deadline-enum-release", "c06d", "release", shards=2),
             native("deadline-enum-debug", "c06d", "debug", shards=2),
-            native("sched-release", "c01", "release", args={"family": "c06", "scale-pct": dict(quick=300, thorough=200)}),
+            native("sched-release", "c01", "release", args={"family": "c06", "scale-pct": dict(quick=600, thorough=200)}),
             native("sched-debug", "c01", "debug", args={"family": "c06", "scale-pct": dict(quick=40, thorough=10)}),
         ],
     ),
